@@ -3,6 +3,7 @@ import Pycoin.DriverLib.TxText
 import Pycoin.Model.SignSecp
 import Pycoin.DriverLib.FastSecp
 import Pycoin.Model.Sighash
+import Pycoin.Model.WhoSigned
 /-!
 C05 ops.
 
@@ -10,8 +11,9 @@ C05 ops.
     c05_lax blob                                   sigdecode_der_lax
     c05_sec x y compressed                         public_pair_to_sec
     c05_sign_solver keys nsigs existing lookup ht placeholder digests
-    c05_sign_tx coin mech tx unspents p2sh ht subset keys passes digests   (passes := idxs ":" valid "|" …; mech is for the harness)
+    c05_sign_tx coin mech tx unspents p2sh ht subset keys passes digests   (passes := idxs ":" valid [":" ht] "|" …, a per-pass hash type overrides ht; mech is for the harness)
     c05_keychain script
+    c05_who_signed coin tx unspents                 public_pairs_signed of every input: inputs separated by "|", signers "x.y.sigtype" by ";" ("~" none)
 
     lookup   := "~" | entry "," entry …      entry := h160 "=" secret "." x "." y "." ("c"|"u")
     digests  := "~" | (ht "=" z) "," …       (sign_solver)        | (idx "." ht "=" z) "," …   (sign_tx)
@@ -159,7 +161,8 @@ def handle : Handler := fun op args =>
       | _ => none) digests
     let passes ← (passes.splitOn "|").mapM fun p =>
       match p.splitOn ":" with
-      | [idxs, valid] => do pure (← parseList? parseNat? idxs, valid.toList)
+      | [idxs, valid] => do pure (← parseList? parseNat? idxs, valid.toList, (none : Option Nat))
+      | [idxs, valid, h] => do pure (← parseList? parseNat? idxs, valid.toList, some (← parseNat? h))
       | _ => none
     let cls ← (Gen.Sign.coinClass.find? (·.1 = coin)).map (·.2)
     let c ← parseCoin? cls
@@ -173,7 +176,7 @@ def handle : Handler := fun op args =>
         | none => true
         | some (w, code) => modelSighash c tx us i w code ht != some z
     if let some (i, ht, _) := bad then some s!"err DigestMismatch {i}.{ht}" else
-    let step := fun (acc : Except Sign.Err Tx) (p : List Nat × List Char) =>
+    let step := fun (acc : Except Sign.Err Tx) (p : List Nat × List Char × Option Nat) =>
       match acc with
       | .error e => .error e
       | .ok tx =>
@@ -181,7 +184,7 @@ def handle : Handler := fun op args =>
         let a : SignArgs := {
           C := crypto, fork := Gen.Sign.forkidCoins.contains coin, lookup := fun h => assocGet h es,
           p2sh := p2shF, sighash := modelSighash c tx us,
-          valid := fun i => p.2[i]? == some '1', ht := ht, subset := subset }
+          valid := fun i => p.2.1[i]? == some '1', ht := (p.2.2 <|> ht), subset := subset }
         signTx a tx us
     some (showE showTx (passes.foldl step (.ok tx)))
   | "c05_fastcheck", [d, z, flip] => do
@@ -201,6 +204,33 @@ def handle : Handler := fun op args =>
         some s!"ok {sh a} {sh b} {sv va} {sv vb}"
       | .error e => some ("err " ++ e.tag)
     | .error _ => some s!"ok {sh a} {sh b} - -"
+  | "c05_who_signed", [coin, tx, us] => do
+    let tx ← parseTx? tx
+    let us ← parseUnspents? us
+    let cls ← (Gen.Sign.coinClass.find? (·.1 = coin)).map (·.2)
+    let c ← parseCoin? cls
+    let one := fun (i : Nat) (tin : TxIn) =>
+      let puzzle := match us[i]?.join with | some u => u.script | none => []
+      let sighash := fun (wit : Bool) (code blob : Bytes) (ht : Nat) =>
+        match (if wit then Sighash.witnessSighashF c tx us code [blob] i ht else Sighash.sighashF c tx us code [blob] i ht) with
+        | .ok z => some (z : Int)
+        | .error _ => none
+      whoSignedInput crypto sighash puzzle tin.script tin.witness
+    let rec go (i : Nat) (ins : List TxIn) : Except WErr (List String) :=
+      match ins with
+      | [] => .ok []
+      | tin :: r =>
+        match one i tin with
+        | .error e => .error e
+        | .ok l =>
+          match go (i + 1) r with
+          | .error e => .error e
+          | .ok rest =>
+            let sh := l.map fun (Q, t) => match Q with | some (x, y) => s!"{x}.{y}.{t}" | none => s!"inf.{t}"
+            .ok ((if sh.isEmpty then "~" else ";".intercalate sh) :: rest)
+    match go 0 tx.ins with
+    | .error e => some ("err " ++ e.tag)
+    | .ok l => some ("ok " ++ (if l.isEmpty then "-" else "|".intercalate l))
   | "c05_keychain", [script] => do
     match ← kcRun (script.splitOn ",") {} with
     | .error e => some ("err " ++ e.tag)
